@@ -1,4 +1,10 @@
+import math
 from typing import Callable, Optional
+
+
+def _same_sign(x: float, y: float) -> bool:
+    # Sign comparison that cannot underflow/overflow, unlike x * y > 0.
+    return (x > 0 and y > 0) or (x < 0 and y < 0)
 
 
 class BrentsRootFinder:
@@ -18,7 +24,9 @@ class BrentsRootFinder:
         self.fa = f_start
         self.fb = f_end
 
-        assert self.fa * self.fb < 0, "Function root needs to be between a and b"
+        assert not _same_sign(
+            self.fa, self.fb
+        ), "Function root needs to be between a and b"
 
         # b has to be the better guess
         if abs(self.fa) < abs(self.fb):
@@ -34,17 +42,23 @@ class BrentsRootFinder:
         self.next_abscissa: Optional[float] = None
 
     def get_next_abscissa(self) -> float:
-        if abs(self.fc - self.fa) < self.epsilon or abs(self.fc - self.fb) < self.epsilon:
-            # Secant method
-            dx = self.fb * (self.b - self.a) / (self.fa - self.fb)
-        else:
-            # Inverse quadratic interpolation
-            s = self.fb / self.fa
-            r = self.fb / self.fc
-            t = self.fa / self.fc
-            q = (t - 1) * (s - 1) * (r - 1)
-            p = s * (t * (r - t) * (self.c - self.b) + (r - 1) * (self.b - self.a))
-            dx = p / q
+        try:
+            if (
+                abs(self.fc - self.fa) < self.epsilon
+                or abs(self.fc - self.fb) < self.epsilon
+            ):
+                # Secant method
+                dx = self.fb * (self.b - self.a) / (self.fa - self.fb)
+            else:
+                # Inverse quadratic interpolation
+                s = self.fb / self.fa
+                r = self.fb / self.fc
+                t = self.fa / self.fc
+                q = (t - 1) * (s - 1) * (r - 1)
+                p = s * (t * (r - t) * (self.c - self.b) + (r - 1) * (self.b - self.a))
+                dx = p / q
+        except ZeroDivisionError:
+            dx = math.nan  # no usable interpolation step: bisect
 
         # Use bisection instead of interpolation
         # if the interpolation is not within bounds.
@@ -54,7 +68,8 @@ class BrentsRootFinder:
         delta_cd = abs(self.c - self.d)
         delta_ab = self.a - self.b
         if (
-            (adx >= abs(3 * delta_ab / 4) or dx * delta_ab < 0)
+            not math.isfinite(dx)
+            or (adx >= abs(3 * delta_ab / 4) or dx * delta_ab < 0)
             or (self.bisection and adx >= delta_bc / 2)
             or (not self.bisection and adx >= delta_cd / 2)
             or (self.bisection and delta_bc < delta)
@@ -78,7 +93,9 @@ class BrentsRootFinder:
         ), "Something went wrong"
 
         # Update interval
-        if self.fa * ordinate < 0:
+        if _same_sign(self.fb, ordinate) or (
+            self.fb == 0 and ordinate != 0 and not _same_sign(self.fa, ordinate)
+        ):
             self.b, self.fb = abscissa, ordinate
         else:
             self.a, self.fa = abscissa, ordinate
